@@ -469,6 +469,31 @@ def analyse_matrix_kernel(ck, fn, struct):
             if s.get("k") == "If" and struct == "Diagonal":
                 events.append((env, "if", s, None, s.get("l")))
                 continue
+            if s.get("k") == "If" and struct in ("Lumping", "RowNorm") and "K" not in env:
+                # `if(c) { [stores]; continue; }` at row level: a path that ends the iteration early
+                if s.get("else") is not None:
+                    raise Unknown("row-level if/else at line %s" % s.get("l"))
+                br = []
+                mk.leaves(s["then"], env, br)
+                if not br or br[-1][0].get("k") not in ("Continue", "Break", "Return") or any(x.get("k") in ("Continue", "Break", "Return") for x, _ in br[:-1]):
+                    raise Unknown("row-level conditional at line %s does not end the iteration" % s.get("l"))
+                stores = []
+                for bs, benv in br[:-1]:
+                    if bs.get("k") != "Assign":
+                        raise Unknown("statement `%s` in the early-exit branch" % render(bs)[:60])
+                    bt, brhs = mk.vsym(bs["lhs"]), mk.vsym(bs["rhs"])
+                    stores.append((benv, bt, brhs if bs.get("op") == "=" else {"+=": bt + brhs, "-=": bt - brhs, "*=": bt * brhs}[bs["op"]]))
+                ckind = "other"
+                c = mk.loc.resolve(s["c"])
+                if c.get("k") == "Bin" and c.get("op") == "==":
+                    try:
+                        sides = {str(mk.cell(mk.loc.resolve(c["lhs"]))), str(mk.cell(mk.loc.resolve(c["rhs"])))}
+                        if sides == {"row_ptr@ROW", "row_ptr@ROW + 1"}:
+                            ckind = "empty"
+                    except (Unknown, Wrong):
+                        pass
+                events.append((env, "rowexit", {"cond": render(s["c"]), "ckind": ckind, "stores": stores, "how": br[-1][0]["k"]}, None, br[-1][0].get("l") or s.get("l")))
+                continue
             if s.get("k") != "Assign":
                 raise Unknown("statement `%s`" % render(s)[:60])
             t = mk.vsym(s["lhs"])
@@ -498,6 +523,25 @@ def analyse_matrix_kernel(ck, fn, struct):
             rowdef = False
             for env, t, op, new, line in events:
                 inK = "K" in env
+                if isinstance(t, str) and t == "rowexit":
+                    info = op
+                    st2 = dict(state)
+                    for benv, bt, bnew in info["stores"]:
+                        if mk.blocked and bt == outp and "I" not in benv:
+                            problems.append("line %s: per-row result written outside the block-row loop" % line)
+                        st2[bt] = bnew.subs({k_: v_ for k_, v_ in st2.items()}, simultaneous=True) if st2 else bnew
+                    if info["how"] != "Continue":
+                        problems.append("line %s: `%s` under `%s` leaves the row loop: all later rows keep the values of an earlier call" % (line, info["how"].lower(), info["cond"]))
+                    elif st2.get(outp) is None:
+                        problems.append("line %s: rows for which `%s` holds end their iteration before %s[row] is stored: the kernel is the only writer of the output, so these rows keep whatever the vector held before (dense definition for %s: %s)" % (
+                            line, info["cond"], outp, "a row without entries" if info["ckind"] == "empty" else "such a row", "0" if info["ckind"] == "empty" else "the row sum"))
+                    elif info["ckind"] == "empty":
+                        fin0 = st2[outp].subs(S, 0).replace(f_sqrt, lambda a_: sympy.Integer(0) if a_ == 0 else f_sqrt(a_))
+                        if sympy.simplify(fin0) != 0:
+                            problems.append("line %s: rows without entries receive %s, dense definition: 0" % (line, fin0))
+                    else:
+                        raise Unknown("early `continue` under `%s` (line %s) stores %s; whether that is the row's result is not decidable here" % (info["cond"], line, st2.get(outp)))
+                    continue
                 if t not in (ACC, outp):
                     problems.append("line %s writes %s" % (line, t))
                     continue
@@ -549,7 +593,7 @@ def analyse_matrix_kernel(ck, fn, struct):
                 problems.append("on a hit diag[row] must receive the entry index")
             detail = "diag[row] <- row_ptr[rows]; first entry with col_ind[entry]==row overwrites it"
         ck.ob("E2.matrix-kernel", key, not problems, "[%s] " % inst + ("; ".join(problems) if problems else detail), file, fn.line,
-              sample={"instantiation": inst, "events": [(str(e[1]), e[2] if isinstance(e[2], str) else "if", str(e[3])) for e in events][:6]})
+              sample={"instantiation": inst, "events": [(str(e[1]), e[2] if isinstance(e[2], str) else "cond", str(e[3])) for e in events][:6]})
     except Wrong as e:
         ck.ob("E2.matrix-kernel", key, False, "[%s] %s" % (inst, e), file, fn.line)
     except Unknown as e:
@@ -1058,6 +1102,92 @@ def merge_paths(ck, fn, sig):
         return None
 
 
+def merge_enumeration(ck, fn, sig):
+    """E7.full-enumeration: the loops over rows / D-entries / A-entries that enclose the merge loop visit every entry"""
+    loc = Locals(fn)
+    keybase = "%s::%s%s" % (short(fn.cls), fn.name, sig)
+    found = []     # (loop chain, conds, node) for every break/continue/return, with the loops and conditions enclosing it
+
+    def scan(n, loops, conds, order):
+        k = n.get("k") if isinstance(n, dict) else None
+        if k in ("Break", "Continue", "Return"):
+            found.append((list(loops), list(conds), n, dict(order)))
+            return
+        if k in ("For", "While", "Do", "ForRange"):
+            for part in ("init", "c", "inc"):
+                pass
+            body = n.get("body")
+            if body is not None:
+                sts = body.get("s", []) if body.get("k") == "Block" else [body]
+                for pos, st in enumerate(sts):
+                    o2 = dict(order)
+                    o2[n.get("i")] = pos
+                    scan(st, loops + [n], conds, o2)
+            return
+        if k == "If":
+            scan(n["then"], loops, conds + [n["c"]], order)
+            if n.get("else") is not None:
+                scan(n["else"], loops, conds + [n["c"]], order)
+            return
+        if k == "Block":
+            for st in n.get("s", []):
+                scan(st, loops, conds, order)
+            return
+        if k == "Lambda":
+            return
+    scan(fn.body, [], [], {})
+    whiles = [n for n in fn.nodes() if n.get("k") == "While"]
+    if len(whiles) != 1:
+        return        # reported by E7.no-silent-drop
+    w = whiles[0]
+    # chain of for loops around the merge loop, and the position of the statement holding the merge loop in each body
+    chain = []
+    def find(n, path):
+        if n is w:
+            chain.extend(path)
+            return True
+        for ch in featlib.children(n):
+            if find(ch, path + ([n] if n.get("k") == "For" else [])):
+                return True
+        return False
+    find(fn.body, [])
+    for F in chain:
+        cl = counting_loop(F) if F.get("init") is not None else None
+        role = "?"
+        if F.get("init") is not None and F["init"].get("k") == "Decl" and F["init"]["vars"]:
+            iv = strip(F["init"]["vars"][0].get("init") or {})
+            if iv.get("k") == "Index":
+                a = accessor(loc, iv["b"])
+                role = "%s.%s" % (a["obj"], a["name"]) if a else "?"
+            elif is_zero(iv):
+                a = accessor(loc, strip(F["c"])["rhs"]) if strip(F["c"]).get("k") == "Bin" else None
+                role = "%s.%s" % (a["obj"], a["name"]) if a else "?"
+        key = "%s/loop:%s" % (keybase, role)
+        body = F.get("body")
+        sts = body.get("s", []) if body is not None and body.get("k") == "Block" else [body]
+        inner_pos = None
+        for pos, st in enumerate(sts):
+            if any(x is w for x in walk(st)):
+                inner_pos = pos
+        problems, soft = [], []
+        for loops, conds, node, order in found:
+            if F not in loops:
+                continue
+            target = loops[-1]
+            ctext = " && ".join(render(c)[:60] for c in conds[-2:]) or "(unconditionally)"
+            unmodelled_cond = any(is_call(y) and y.get("k") in ("Call", "MCall") and not (y.get("k") == "MCall" and not y.get("a")) for c in conds for y in walk(c))
+            if node["k"] == "Return" or (node["k"] == "Break" and target is F):
+                msg = "line %s: `%s` under `%s` leaves the loop over %s before its condition ends it: the remaining entries each add an independent term alpha*D_ik*A_kl*B_l. of the product, which is silently omitted" % (node.get("l"), node["k"].lower(), ctext, role)
+                (soft if unmodelled_cond else problems).append(msg)
+            elif node["k"] == "Continue" and target is F:
+                if inner_pos is not None and order.get(F.get("i"), 0) <= inner_pos and not any(x is node for x in walk(sts[inner_pos])):
+                    soft.append("line %s: `continue` under `%s` skips the merge for the current entry of %s" % (node.get("l"), ctext, role))
+        if soft and not problems:
+            ck.incomplete("E7.full-enumeration", "%s: %s" % (key, "; ".join(soft[:2])))
+            continue
+        ck.ob("E7.full-enumeration", key, not problems, "; ".join(problems) if problems else "no break/return leaves the loop over %s; every entry reaches the merge loop" % role, fn.file, F.get("l"))
+
+
 # -------------------------------------------------------------------------------------------------
 # container-level row loops (loop-carried state) and re-created results (dimension roles)
 # -------------------------------------------------------------------------------------------------
@@ -1245,6 +1375,7 @@ def run(tier):
     ck.rule("E2.matrix-kernel", "generic kernels ScaleRows/ScaleCols/Lumping/RowNorm/Diagonal (csr and bcsr): outer loop over [0,rows), entry loop over [row_ptr[row],row_ptr[row+1]), every array subscripted by the index kind of its role (entry, row, col_ind[entry]; blocked affine forms), per-row results defined outside the entry loop (empty rows), reductions only accumulate inside the entry loop, per-entry term and result equal the documented formula. Broken for: rectangular matrices, empty rows, rows with more than one entry/block.", 46)
     ck.rule("E2.merge-kinds", "add_double_mat_product / add_mat_mat_product (CSR, BCSR): every subscript of row_ptr/col_ind/val/elements of X, D, A, B has the index kind the array needs (Row/NZ/Col/Dim of that object); kinds of different objects are equal only through the function's own XASSERTs; compared column indices live in the same space; cursors are bounded by the end of their own segment. Broken for: products of non-square factors.", 86)
     ck.rule("E7.no-silent-drop", "merge loops: an entry of the right factor B is passed over only after the accumulate statement X_ij += w*B_lj ran in the same iteration (itself control dependent on equal column indices, reading B at the cursor) or on the true edge of allow_incomplete, where advancing the B cursor by exactly one is the only permitted effect (at most one advance per iteration); the loop is left early only under allow_incomplete AND with the X cursor at the end of its row (no slot can follow); every other way out reaches XABORTM; the X cursor is checked against the end of its row before it is dereferenced and passes a slot only after serving it or when its column is smaller than the current B column. Broken for: output patterns poorer than the product pattern (silently wrong values instead of the documented abort), rows of X shorter than rows of B.", 7)
+    ck.rule("E7.full-enumeration", "merge products: the for loops over the rows of X/D, the entries D_ik and the entries A_kl that enclose the sorted-merge loop are left only through their own loop condition (or XABORTM): no break / return inside them, no continue that skips the merge. Each iteration adds an independent term of sum_k sum_l alpha*D_ik*A_kl*B_l.; no condition on the cursors of the current B row says anything about later rows. Broken for: allow_incomplete with an output row that ends before a row of B, followed by further entries A_kl' whose rows hit existing slots.", 19)
     ck.rule("E2.row-loop-state", "container-level row loops of the matrix-algebra members (extract_diag): the value stored for row i into an output vector depends only on loop-invariant data and on locals that are fresh (declared, or unconditionally re-initialised at the top) in every iteration. Broken for: rows that take no assigning path (block rows without a diagonal block after a row that has one) - they return the value of an earlier row instead of 0.", 3)
     ck.rule("E1.result-dims", "matrix-algebra members that re-create *this (shrink) construct the result with rows_in <- rows(), columns_in <- columns() of the receiver (or of an operand asserted equal) on every exit, and all exits agree. Broken for: non-square matrices on the special-case exit (all entries dropped).", 3)
     ck.rule("E0.instantiable", "the matrix algebra members instantiate for CSR and BCSR (square and rectangular blocks)", 3)
@@ -1311,6 +1442,7 @@ def run(tier):
                     sig = "(%s)" % ",".join("%s:%s" % (p["n"], mat_class(fn.type(p["t"])) or ("vec" if vec_like(fn.type(p["t"])) else "")) for p in fn.params if p["n"] in ("d", "a", "b"))
                     sig = sig.replace("SparseMatrix", "")
                     merge_kinds(ck, fn, sig)
+                    merge_enumeration(ck, fn, sig)
                     nf = merge_paths(ck, fn, sig)
                     if nf is not None:
                         sib.setdefault(nf, []).append("%s::%s%s" % (short(fn.cls), fn.name, sig))
